@@ -34,6 +34,9 @@ class Finding:
                     file=self.file, line=self.line, message=self.message, key=self.key, extra=self.extra)
 
 
+UNRECOGNISED_PHRASES = ("cannot find", "cannot identify", "not recognisabl", "was not found", "not found in", "is not found", "cannot tell", "cannot determine")
+
+
 class RuleResult:
     """Outcome of one rule on the tree: the instances (obligations) examined and the findings."""
 
@@ -47,6 +50,7 @@ class RuleResult:
         self.notes: List[str] = []
         self.paths = 0
         self.controls: List[Dict[str, Any]] = []
+        self.undecided_items: List[str] = []
 
     def ok(self, where, what, **kw):
         d = dict(where=where, what=what, verdict="ok")
@@ -54,8 +58,12 @@ class RuleResult:
         self.instances.append(d)
 
     def bad(self, fi_or_fq, node, message, file=None, what=None, **extra):
-        """record a violated instance"""
+        """record a violated instance.  A message that only says the rule could not *recognise* its construct is not a violation:
+        it is routed to `undecided` (nothing was shown to be wrong)."""
         from .model import norm_stmt
+        low = message.lower()
+        if any(ph in low for ph in UNRECOGNISED_PHRASES):
+            return self.undecided(fi_or_fq, node, message)
         if hasattr(fi_or_fq, "fq"):
             fq = fi_or_fq.fq
             file = fi_or_fq.module.relpath
@@ -71,6 +79,15 @@ class RuleResult:
 
     def note(self, s):
         self.notes.append(s)
+
+    def undecided(self, fi_or_fq, node, message):
+        """the rule could not recognise the construct it reasons about (re-written beyond the forms it knows): no verdict.  Reported as
+        an analysis problem (exit 2 unless something else is a definite violation) - never as a violation, because nothing was shown
+        to be wrong."""
+        fq = fi_or_fq.fq if hasattr(fi_or_fq, "fq") else fi_or_fq
+        line = getattr(node, "lineno", 0) if not isinstance(node, str) else 0
+        self.undecided_items.append("%s (%s:%s): %s" % (self.rule, fq, line, message))
+        self.instances.append(dict(where=fq, what=message, verdict="undecided"))
 
 
 class KnownFindings:
@@ -149,6 +166,9 @@ def run_check(prop: str, tier: str, rules_fn, repo: str, seed: int = 0, level: s
             analysis_errors.append("rule %s matched %d instance(s), fewer than the %d confirmed by hand "
                                    "(a rule must not pass vacuously)" % (r.rule, len(r.instances), r.min_instances))
             status = "too-few-instances"
+        for u in getattr(r, "undecided_items", []):
+            analysis_errors.append("undecided: " + u)
+            status = "undecided"
         for c in r.controls:
             if not c.get("ok"):
                 analysis_errors.append("rule %s control %s failed: %s" % (r.rule, c.get("name"), c.get("detail")))
